@@ -422,6 +422,7 @@ func markerToBox(element *utils.HTMLNode, state *tree.PageState, parentStyle pr.
 	}
 
 	image := style.GetListStyleImage()
+	emptyMarkerText := false
 
 	if content := style.GetContent().String; content != "normal" && content != "inhibit" {
 		*children = append(*children, ContentToBoxes(style, box, state.QuoteDepth, state.CounterValues,
@@ -442,13 +443,18 @@ func markerToBox(element *utils.HTMLNode, state *tree.PageState, parentStyle pr.
 			}
 			counterValue := counterValue_[len(counterValue_)-1]
 			markerText := cs.RenderMarker(style.GetListStyleType(), counterValue)
-			markerBox := TextBoxAnonymousFrom(box, markerText)
-			markerBox.Box().Style.SetWhiteSpace("pre-wrap")
-			*children = append(*children, markerBox)
+			if markerText == "" {
+				// list-style-type: "" for instance : the marker box has no content
+				emptyMarkerText = true
+			} else {
+				markerBox := TextBoxAnonymousFrom(box, markerText)
+				markerBox.Box().Style.SetWhiteSpace("pre-wrap")
+				*children = append(*children, markerBox)
+			}
 		}
 	}
 
-	if len(*children) == 0 {
+	if len(*children) == 0 && !emptyMarkerText {
 		return nil
 	}
 	var markerBox Box
